@@ -37,9 +37,10 @@ type Params struct {
 	KS       []int   // key size of message i, -1 = nil key
 	Parts    []int32 // partition of message i (manual partitioner)
 	NParts   int
-	Policy   string   // drain | input
-	CloseAny bool     // AsyncClose offered at every decision point after the first submit
-	Faults   []string // produce faults the broker may answer with (default none: C16 quantifies over sizes and latency)
+	Policy   string          // drain | input
+	CloseAny bool            // AsyncClose offered at every decision point after the first submit
+	Gates    map[string]bool // gate sites that are decision points (needed with faults: the retry path has merge points)
+	Faults   []string        // produce faults the broker may answer with (default none: C16 quantifies over sizes and latency)
 }
 
 func atoi(v url.Values, k string, def int) int {
@@ -72,7 +73,7 @@ func Parse(v url.Values) (*Params, error) {
 	p := &Params{
 		MMB: atoi(v, "mmb", 1000000), MRS: atoi(v, "mrs", 0), FM: atoi(v, "fm", 0), FB: atoi(v, "fb", 0),
 		FF: time.Duration(atoi(v, "ff", 0)) * time.Millisecond, FX: atoi(v, "fx", 0), Policy: v.Get("policy"),
-		CloseAny: atoi(v, "closeany", 0) == 1, Faults: splitNonEmpty(v.Get("faults")),
+		CloseAny: atoi(v, "closeany", 0) == 1, Faults: splitNonEmpty(v.Get("faults")), Gates: gateSet(v.Get("gates")),
 	}
 	if p.Policy == "" {
 		p.Policy = "drain"
@@ -271,7 +272,7 @@ func run(c *gx.Ctl, p *Params) *gx.Outcome {
 	cl.AddTopic("t", leaders...)
 	cl.UrgentMetadata = true
 	cl.ProduceFaults = p.Faults
-	c.AutoRelease = func(site string) bool { return true }
+	c.AutoRelease = func(site string) bool { return !p.Gates[site] }
 
 	// MaxRequestSize is a package variable: lowered for this execution only (executions of a process are
 	// sequential), restored when the execution is over.
@@ -429,7 +430,9 @@ func (r *rig) observe() {
 	if last == "close" && !pending && len(outst) > 0 {
 		r.stats["buffered-at-close-without-trigger"]++
 	}
-	if !pending && len(outst) > 0 && r.setupErr == nil {
+	// (a message parked at a gate - scenarios with faults make the retry path's merge points decision points - is on its way,
+	// not waiting for a trigger; and while a metadata request is pending a bounced message is waiting for its leader)
+	if !pending && len(outst) > 0 && r.setupErr == nil && len(r.c.Parked()) == 0 {
 		ids := []string{}
 		for _, i := range outst {
 			ids = append(ids, msgID(i))
@@ -533,4 +536,12 @@ func splitNonEmpty(s string) []string {
 		return nil
 	}
 	return strings.Split(s, ",")
+}
+
+func gateSet(s string) map[string]bool {
+	m := map[string]bool{}
+	for _, g := range splitNonEmpty(s) {
+		m[g] = true
+	}
+	return m
 }
